@@ -637,11 +637,11 @@ pub fn check_c12(prog: &NetProgram, res: &NetResult, info: &mut RunInfo) {
             dfs(t, &children, &mut pre);
         }
     }
-    let max_stage = prog.modules.iter().map(|m| m.stages as usize).max().unwrap_or(1).max(1);
+    let max_stage = prog.modules.iter().map(|m| eff_stages(m) as usize).max().unwrap_or(1).max(1);
     let mut expect: Vec<(usize, u8)> = Vec::new();
     for stage in 0..max_stage {
         for &m in &pre {
-            if stage < prog.modules[m].stages as usize {
+            if stage < eff_stages(&prog.modules[m]) as usize {
                 expect.push((m, stage as u8));
             }
         }
@@ -1564,7 +1564,7 @@ pub fn check_c09(prog: &NetProgram, res: &NetResult, info: &mut RunInfo) {
     }
     // behaviour of every victim inside / at the end of its downtime
     for m in 0..nmod {
-        let stages = prog.modules[m].stages.clamp(1, 4);
+        let stages = eff_stages(&prog.modules[m]);
         let recs: Vec<&Rec> = tr.iter().filter(|r| r.m as usize == m).collect();
         let dcount = downs[m].len();
         for di in 0..dcount {
@@ -1613,7 +1613,7 @@ pub fn check_c09(prog: &NetProgram, res: &NetResult, info: &mut RunInfo) {
                         return;
                     }
                     started_stages.push(*stage);
-                } else if user_code && first_start.is_none() && !matches!(r.ev, Ev::Beat { .. } if false) {
+                } else if user_code && first_start.is_none() && stages > 0 {
                     // user code of the new incarnation before its start-up ran
                     if let Some(u) = d.until_t {
                         if r.t >= u {
@@ -1779,6 +1779,10 @@ pub fn check_c09(prog: &NetProgram, res: &NetResult, info: &mut RunInfo) {
             continue;
         }
         let spec = &prog.modules[m];
+        // (a module without start-up stages never arms its scripted timers)
+        if eff_stages(spec) == 0 {
+            continue;
+        }
         let mut starts: Vec<(u16, u64)> = vec![(0, 0)];
         for (k, d) in downs[m].iter().enumerate() {
             if let (Some(u), Some(_)) = (d.until_t, d.start_seq) {
